@@ -193,6 +193,8 @@ pub struct Model {
     pub next_auto_local: u32,
     cur_op: usize,
     cur_thread: usize,
+    /// frames are being closed by a panic unwinding through them
+    unwinding: bool,
 }
 
 impl Model {
@@ -211,6 +213,7 @@ impl Model {
             next_auto_local: auto_local_base,
             cur_op: 0,
             cur_thread: 0,
+            unwinding: false,
         }
     }
 
@@ -436,7 +439,12 @@ impl Model {
                         }
                     }
                     LineKind::Collector(set) => {
-                        self.sets.insert(set, Some(li));
+                        if self.unwinding {
+                            // a LocalCollector dropped without collect(): what it captured is gone
+                            self.sets.insert(set, None);
+                        } else {
+                            self.sets.insert(set, Some(li));
+                        }
                     }
                 }
             }
@@ -759,11 +767,20 @@ impl Model {
             }
             Op::ACall { a, method, steps, outcome } => {
                 let pushed = self.begin_call(*a);
+                let floor = self.threads[t].frames.len();
                 for st in steps {
                     self.apply_rec(st);
                 }
                 // the end of the call has its own flat index
                 self.push_info();
+                if *outcome == AOutcome::Panic {
+                    // what the steps left open is dropped by the unwinding, innermost first
+                    self.unwinding = true;
+                    while self.threads[t].frames.len() > floor {
+                        self.pop_frame();
+                    }
+                    self.unwinding = false;
+                }
                 self.end_call(*a, pushed, *method, *outcome);
             }
             Op::Reent { host, steps } => {
@@ -801,6 +818,19 @@ impl Model {
                         self.apply_inner(host);
                     }
                 }
+            }
+            Op::Unwind { steps } => {
+                // flat layout: [begin marker] [steps] [end: everything left open is closed]
+                let floor = self.threads[t].frames.len();
+                for st in steps {
+                    self.apply_rec(st);
+                }
+                self.push_info();
+                self.unwinding = true;
+                while self.threads[t].frames.len() > floor {
+                    self.pop_frame();
+                }
+                self.unwinding = false;
             }
             Op::ADrop { a } => {
                 let adm = self.adapters.get_mut(a).unwrap();
@@ -871,6 +901,10 @@ impl Model {
         );
         let adm = self.adapters.get_mut(&a).unwrap();
         adm.calls += 1;
+        if outcome == AOutcome::Panic {
+            // not polled again; its span lives until the adapter is dropped
+            adm.done = true;
+        }
         if finishing {
             adm.done = true;
             if let Some(s) = adm.span.take() {
@@ -897,6 +931,12 @@ impl Model {
             }
             _ => self.closure_will_run(host),
         }
+    }
+
+    /// For the generator: the begin marker of an `Unwind` on a scratch copy of the model.
+    pub fn scratch_begin_unwind(&mut self, t: usize) {
+        self.cur_thread = t;
+        self.push_info();
     }
 
     /// For the generator: open the scope of a call on a scratch copy of the model.
